@@ -8,8 +8,8 @@ open Spec
 /-! ### shape of the effects (any configuration) -/
 
 theorem signalM_eff_shape (c : Cfg) (k : Kernel) (ps : Ps) (o : PObj) (m : SigMethod)
-    {e : EffKind × Int × List Int × Option Nat} (h : (signalM c k ps o m).eff = some e) :
-    ∃ x, k.find o.pid = some x ∧ e = (.kill, (o.pid : Int), [(sigOf c m : Int)], some x.start)
+    {e : EffKind × Int × List Int × Option Nat × Option Errno} (h : (signalM c k ps o m).eff = some e) :
+    ∃ x, k.find o.pid = some x ∧ e = (.kill, (o.pid : Int), [(sigOf c m : Int)], some x.start, k.refusal o.pid)
       ∧ (guardedO c c.guardSignal k ps o).2.2 = false ∧ (o.pid == 0 && c.pid0Refused) = false := by
   rw [signalM_eq] at h
   split at h
@@ -25,9 +25,9 @@ theorem signalM_eff_shape (c : Cfg) (k : Kernel) (ps : Ps) (o : PObj) (m : SigMe
         exact ⟨x, hf, h.symm, by simpa using hg, by simpa using h0⟩
 
 theorem setterM_eff_shape (c : Cfg) (k : Kernel) (ps : Ps) (o : PObj) (kind : SetKind) (args : List Int)
-    {e : EffKind × Int × List Int × Option Nat} (h : (setterM c k ps o kind args).eff = some e) :
+    {e : EffKind × Int × List Int × Option Nat × Option Errno} (h : (setterM c k ps o kind args).eff = some e) :
     ∃ x a, k.find o.pid = some x ∧ setterArgs c o.pid kind args = some a
-      ∧ e = (.set kind, (o.pid : Int), a, some x.start)
+      ∧ e = (.set kind, (o.pid : Int), a, some x.start, k.refusal o.pid)
       ∧ (guardedO c (guardOf c kind) k ps o).2.2 = false := by
   rw [setterM_eq] at h
   split at h
@@ -42,6 +42,42 @@ theorem setterM_eff_shape (c : Cfg) (k : Kernel) (ps : Ps) (o : PObj) (kind : Se
         simp only [Option.some.injEq] at h
         exact ⟨x, a, hf, ha, h.symm, by simpa using hg⟩
 
+/-- outcome and effect of a signal call go together (any state, any configuration): no effect and an
+    exception, or one `os.kill` and exactly what the kernel answered -/
+theorem signalM_out_shape (c : Cfg) (k : Kernel) (ps : Ps) (o : PObj) (m : SigMethod) :
+    ((signalM c k ps o m).eff = none ∧ ∃ ex, (signalM c k ps o m).out = .exc ex)
+    ∨ (∃ t, (signalM c k ps o m).eff = some t ∧ t.2.2.2.2 = k.refusal o.pid
+        ∧ (signalM c k ps o m).out = outOf o.pid (k.refusal o.pid)) := by
+  rw [signalM_eq]
+  split
+  · exact Or.inl ⟨rfl, _, rfl⟩
+  · split
+    · exact Or.inl ⟨rfl, _, rfl⟩
+    · split
+      · exact Or.inl ⟨rfl, _, rfl⟩
+      · exact Or.inr ⟨_, rfl, rfl, rfl⟩
+
+theorem setterM_out_shape (c : Cfg) (k : Kernel) (ps : Ps) (o : PObj) (kind : SetKind) (args : List Int) :
+    ((setterM c k ps o kind args).eff = none ∧ ∃ ex, (setterM c k ps o kind args).out = .exc ex)
+    ∨ (∃ t, (setterM c k ps o kind args).eff = some t ∧ t.2.2.2.2 = k.refusal o.pid
+        ∧ (setterM c k ps o kind args).out = outOf o.pid (k.refusal o.pid)) := by
+  rw [setterM_eq]
+  split
+  · exact Or.inl ⟨rfl, _, rfl⟩
+  · split
+    · exact Or.inl ⟨rfl, _, rfl⟩
+    · split
+      · exact Or.inl ⟨rfl, _, rfl⟩
+      · exact Or.inr ⟨_, rfl, rfl, rfl⟩
+
+theorem createTimeM_eff (c : Cfg) (k : Kernel) (ps : Ps) (o : PObj) : (createTimeM c k ps o).eff = none := by
+  unfold createTimeM
+  split
+  · rfl
+  · split
+    · rfl
+    · split <;> rfl
+
 theorem ppidM_eff (c : Cfg) (k : Kernel) (ps : Ps) (o : PObj) : (ppidM c k ps o).eff = none := by
   rw [ppidM_eq]; split
   · rfl
@@ -54,7 +90,7 @@ theorem method_eff_none {c : Cfg} {k : Kernel} {ps : Ps} {o : PObj} {call : Call
     simp [isEffectCall] at hne <;> subst hm
   · rfl
   · exact ppidM_eff _ _ _ _
-  · rfl
+  · exact createTimeM_eff _ _ _ _
   · rfl
 
 /-! ### the guard does its job (good configuration, invariant) -/
@@ -65,8 +101,8 @@ theorem guardOf_good {c : Cfg} (hg : c.Good) (kind : SetKind) : guardOf c kind =
 /-- an effect is produced only for the live incarnation, under the object's PID; signals never to PID 0 -/
 theorem method_eff_ok {c : Cfg} (hg : c.Good) {k : Kernel} {ps : Ps} {B : Nat} {o : PObj}
     (hb : ps.bootTime = some B) (hnz : B ≠ 0) (hok : ObjOK c.clk k B o) {call : Call} {r : MRes}
-    (hm : method c k ps o call = some r) {e : EffKind × Int × List Int × Option Nat} (he : r.eff = some e) :
-    e.2.1 = (o.pid : Int) ∧ e.2.2.2 = some o.ghost ∧ (e.1 = .kill → 0 < e.2.1) := by
+    (hm : method c k ps o call = some r) {e : EffKind × Int × List Int × Option Nat × Option Errno} (he : r.eff = some e) :
+    e.2.1 = (o.pid : Int) ∧ e.2.2.2.1 = some o.ghost ∧ (e.1 = .kill → 0 < e.2.1) := by
   cases hec : isEffectCall call with
   | false => rw [method_eff_none hm hec] at he; cases he
   | true =>
@@ -206,7 +242,7 @@ theorem step_log {c : Cfg} (hg : c.Good) (s : St) (ev : Ev) (h : Inv c.clk s) (h
         cases heff : r.eff with
         | none => intro e he; simp only [pushEff] at he; exact hold e he
         | some t =>
-          obtain ⟨kind, pid, arg, owner⟩ := t
+          obtain ⟨kind, pid, arg, owner, res⟩ := t
           intro e he
           simp only [pushEff, List.mem_cons] at he
           rcases he with rfl | he
